@@ -1029,6 +1029,86 @@ int main(int argc, char** argv)
                 ++runs;
             }
         }
+        // ---- targeted family T4 (repo commit 31bf93f): the budget runs out INSIDE the curve search of a proximal bundle solver -----
+        // csearch_t::search keeps its result in a member; before the fix its status was not reset at entry, so a call that left
+        // its loop through the budget guard (after a trial that did not classify) returned the status of the PREVIOUS call (e.g.
+        // descent_step) together with the rejected trial point: rqb then moved to a point worse than the start (status max_iters).
+        // Needs max_evals 10..20 (found: 5 of 56 550 random rqb runs, all with max_evals <= 16): every value of 10..20 is cycled,
+        // rqb (1/2) / fpba1 / fpba2 on the registered convex functions and the generated convex ones, dims 1..8, x0 radius up to 3,
+        // default (1/2) and random bundle / csearch / proximity parameters. Case 0 is the fixed corpus input of the finding.
+        // Only every 16th run is printed (the traces of the others are printed when the direct oracle fails on them).
+        {
+            std::vector<std::string> cvx;
+            for (const auto& fid : fids)
+            {
+                const auto f4 = function_t::all().get(fid)->make(4, 10);
+                if (f4 && f4->convex()) cvx.push_back(fid);
+            }
+            static const char* t4s[] = {"rqb", "fpba1", "rqb", "fpba2"};
+            const long         per_t4 = thorough ? 40000 : 3000;
+            for (long k = 0; k < per_t4; ++k, ++id)
+            {
+                vh::rng_t r(seed * 1000003ULL + static_cast<uint64_t>(id) * 7919ULL + 29);
+                if (only >= 0 && id != only) continue;
+                run_cfg_t cfg;
+                cfg.id     = id;
+                cfg.solver = k == 0 ? "rqb" : t4s[k % 4];
+                cfg.kind   = "loose";
+                cfg.type   = "nm";
+                cfg.eps    = r.range(0, 1) ? 1e-9 : log_uniform(r, 1e-10, 1e-4);
+                cfg.maxev  = 10 + (k / 4) % 11;
+                cfg.radius = r.range(0, 2) == 0 ? 3.0 : log_uniform(r, 0.3, 3.0);
+                const auto  n = static_cast<tensor_size_t>(r.range(1, 8));
+                rfunction_t fn;
+                const auto  pickf = r.range(0, 5);
+                if (k == 0) fn = function_t::all().get("zakharov")->make(4, 10);
+                else if (pickf == 0) fn = std::make_unique<quad_function_t>(r, static_cast<int>(n), log_uniform(r, 1, 1e2), log_uniform(r, 1e-1, 1e1), true);
+                else if (pickf == 1) fn = std::make_unique<pwl_function_t>(r, static_cast<int>(n), static_cast<int>(r.range(2, 12)));
+                else if (!cvx.empty()) fn = function_t::all().get(cvx[static_cast<size_t>(r.range(0, static_cast<int64_t>(cvx.size()) - 1))])->make(n, r.range(10, 40));
+                if (!fn || !fn->convex()) continue;
+                cfg.fname   = fn->name() + "/T4";
+                auto solver = make_solver_by_id(cfg.solver);
+                auto x0     = make_x0(r, fn->size(), cfg.radius);
+                if (k == 0)
+                {
+                    cfg.eps   = 1e-9;
+                    cfg.maxev = 11;
+                    x0(0) = -0x1.2946bad998674p+1; x0(1) = 0x1.5905d6abf772cp+0; x0(2) = 0x1.054625f210dp+1; x0(3) = -0x1.cf56d7281c8fp-1;
+                }
+                solver->parameter("solver::epsilon")   = cfg.eps;
+                solver->parameter("solver::max_evals") = cfg.maxev;
+                if (k % 2 == 1)
+                {
+                    const auto p  = std::string("solver::") + cfg.solver;
+                    const auto m1 = 0.05 + 0.8 * r.unit();
+                    // NB: not below 6 -- with max_size 3 (always) or 4 (sometimes) bundle_t::append writes one slot past its buffers
+                    // (heap-buffer-overflow under ASan, notes/C02.md "bundle::max_size"; C03's area) -- kept out of this family
+                    solver->parameter(p + "::bundle::max_size") = static_cast<int64_t>(r.range(6, 100));
+                    solver->parameter(p + "::csearch::m3")       = log_uniform(r, 1e-2, 1e2);
+                    solver->parameter(p + "::csearch::m4")       = log_uniform(r, 1e-2, 1e2);
+                    solver->parameter(p + "::csearch::interpol") = 0.05 + 0.9 * r.unit();
+                    solver->parameter(p + "::csearch::extrapol") = log_uniform(r, 1.1, 50.0);
+                    solver->parameter(p + "::csearch::m1m2")     = std::make_tuple(m1, m1 + (0.99 - m1) * (0.05 + 0.9 * r.unit()));
+                    if (r.range(0, 1))
+                    {
+                        const auto lo = log_uniform(r, 1e-2, 1e3);
+                        solver->parameter(p + "::prox::miu0_range") = std::make_tuple(lo, lo * log_uniform(r, 1.5, 1e2));
+                    }
+                }
+                const bool print  = only >= 0 || k % 16 == 0;
+                const auto before = g_fails;
+                run_one(cfg, *solver, *fn, x0, print);
+                if (!print && g_fails != before)
+                {
+                    // print the trace of the failing run (deterministic: same solver object configuration, same function, same x0)
+                    auto again = solver->clone();
+                    const auto keep = g_fails;
+                    run_one(cfg, *again, *fn, x0, true);
+                    g_fails = keep;
+                }
+                ++runs;
+            }
+        }
     }
     else
     {
